@@ -27,7 +27,9 @@ CLAIM = (
     "whole space (U^H U = I on the full delta basis), additive in the shift vector, and equal to a circular roll for integer shifts (torch and "
     "NumPy variants); the propagators read from Ptychography.propagators are unit-modulus, the propagation they induce is unitary on the full "
     "basis, additive in the distance and inverted by the negative distance; sum_patches is exactly the transpose of patch extraction for index "
-    "sets with wrap-around and repeats (matrix equality on both bases; exact hit counts and inner products for index sets of 2^12..2^17 patch pixels around block boundaries); for pure-phase and potential objects the summed predicted intensity of "
+    "sets with wrap-around and repeats (matrix equality on both bases; exact hit counts and inner products for index sets of 2^12..2^17 patch pixels around block boundaries; at the size corners "
+    "1 patch as a 2-D or 3-D index array / 2 / 3 patches x object axes shorter than, equal to and longer than the ROI on each axis separately (one patch wrapping onto itself) x real and complex patches, "
+    "sum_patches, sum_patches_base and the analytic object gradient agree with the transposed extraction matrix, with np.add.at and conserve the total weight); for pure-phase and potential objects the summed predicted intensity of "
     "every pattern equals the probe's total intensity for 1..4 slices and 1..3 modes; fourier_projection returns a wave whose detector "
     "amplitude equals the measured amplitudes and is idempotent, single and mixed state, for signal scales 1e-4..30; and for every ordered pair "
     "(thorough: triple) of calls from an alphabet built to collide on coarse cache keys, the last call still obeys its identities, agrees with the same call "
@@ -48,7 +50,7 @@ NOTE = (
 )
 RULE = (
     "Cartesian product of the alphabets named in coverage.alphabet. A shift point is non-trivial when the shift is not zero, a pair when both are; a "
-    "propagation point when the distance is not zero; an adjoint point when the index set has wrap-around or repeated indices or more than one patch; a "
+    "propagation point when the distance is not zero; an adjoint point when the index set has wrap-around or repeated indices or more than one patch (size-corner points: patch count x object axis lengths {1,2,n-1,n,n+1,2n+1} per axis x origin sets, non-trivial by the same rule); a "
     "forward point always (object and probe are seeded, never uniform); a projection point when the measured amplitudes differ from the current ones; a call history when it has more than one call; a spelling when the library accepts it. "
     "distinct = distinct point descriptors."
 )
@@ -470,6 +472,159 @@ def w_adjoint_large(item, seed=0):
     t = Tally()
     judge_adjoint_large(t, item, seed)
     t.sample({"kind": "adjoint_large", "spec": item, "patch_pixels": int(large_indices(item).size)}, cap=2)
+    return t
+
+
+# ----------------------------------------------------------------------------- B3. gather / scatter at the size CORNERS of the index set
+# A special case for "just one patch" (or for an object axis shorter than the ROI) is invisible unless the SIZE corners are crossed with
+# each other: the number of patches in {1 as a 2-D index array, 1 as a 3-D array with a leading 1 (what a batch of one / a remainder
+# batch of one hands over), 2, 3} x object axis lengths {1, 2, n-1, n, n+1, 2n+1} for ROI length n, on EACH axis separately (shorter
+# axis: the patch wraps onto itself and one patch has repeated indices) x patch origins {(0,0), (1,2), (H-1,W-1)} (sets of two: two
+# different origins / the same origin twice) x real and complex patches x every entry point that scatters patches back (sum_patches,
+# sum_patches_base, and the analytic object gradient ObjectPixelated.backward). Oracles: the full delta basis (scatter matrix == transpose of
+# the extraction matrix, exact), exact hit counts and conservation of total weight for constant float32/complex64 patches, an independent
+# np.add.at reference and the inner-product identity on seeded complex128 data.
+CORNER_ROIS = [(4, 4), (3, 5)]
+CORNER_ROIS_EXTRA = [(5, 4), (2, 7)]  # thorough tier
+CORNER_PATCH_KINDS = ["1_as_2d_array", "1_as_3d_array", "2", "3"]
+CORNER_ENTRIES = ["sum_patches", "sum_patches_base", "ObjectPixelated.backward"]
+
+
+def corner_axis_lengths(n):
+    return sorted({1, 2, max(1, n - 1), n, n + 1, 2 * n + 1})
+
+
+def corner_objects(roi):
+    return [(h, w) for h in corner_axis_lengths(roi[0]) for w in corner_axis_lengths(roi[1])]
+
+
+def corner_index_sets(objshape):
+    """[(patch kind, origins)] — the same list for every object, origins reduced modulo the object by raster_indices."""
+    H, W = objshape
+    o = [(0, 0), (1, 2), (H - 1, W - 1)]
+    sets = [(kind, [list(p)]) for kind in CORNER_PATCH_KINDS[:2] for p in o]
+    sets += [("2", [list(o[0]), list(o[1])]), ("2", [list(o[2]), list(o[2])]), ("3", [list(p) for p in o])]
+    return sets
+
+
+def corner_indices(roi, objshape, kind, origins):
+    idx = raster_indices(tuple(objshape), tuple(roi), [tuple(p) for p in origins])
+    if kind == "1_as_2d_array":
+        idx = idx[0]
+    want_shape = {"1_as_2d_array": tuple(roi), "1_as_3d_array": (1, *roi), "2": (2, *roi), "3": (3, *roi)}[kind]
+    if tuple(idx.shape) != tuple(want_shape):
+        raise Broken(f"corner index set built with shape {idx.shape}, wanted {want_shape}")
+    return idx
+
+
+def judge_adjoint_corner(t, roi, objshape, kind, origins, seed, om=None):
+    torch = _torch()
+    import quantem.diffractive_imaging.ptycho_utils as pu
+    from quantem.diffractive_imaging.object_models import ObjectPixelated
+
+    roi, objshape = tuple(roi), tuple(objshape)
+    H, W = objshape
+    N = H * W
+    idx = corner_indices(roi, objshape, kind, origins)
+    P = int(idx.size)
+    flat = idx.reshape(-1)
+    hist = np.bincount(flat, minlength=N)
+    repeats = bool(hist.max() > 1)
+    self_overlap = bool(H < roi[0] or W < roi[1])
+    case = {"kind": "adjoint_corner", "roi": list(roi), "objshape": list(objshape), "patches": kind, "origins": [list(p) for p in origins]}
+    t.case(key=case, nontrivial=repeats or kind in ("2", "3"), outcome=[list(roi), list(objshape), kind, int(hist.max()), int((hist > 0).sum())])
+    t.extra["corner_sets_single_patch_with_repeated_indices"] += int(repeats and kind.startswith("1"))
+    cls = {"repeated_indices": repeats, "single_patch": kind.startswith("1"), "object_axis_shorter_than_roi": self_overlap}
+    where = f"roi={roi} object={objshape} patches={kind} (index array {tuple(idx.shape)}) origins={[tuple(p) for p in origins]} max hits per object pixel={int(hist.max())}"
+    ti = torch.tensor(idx, dtype=torch.int32)
+    want = np.zeros((P, N))
+    want[np.arange(P), flat] = 1.0
+    # extraction on the full delta basis through the public ObjectPixelated.forward
+    with library("ObjectPixelated.forward"), torch.no_grad():
+        if om is None:
+            om = ObjectPixelated.from_array(np.eye(N, dtype=np.complex64).reshape(N, H, W), slice_thicknesses=1.0, obj_type="complex", rng=int(seed) + 5)
+            om.reset()
+        G = om.forward(ti).numpy().reshape(N, P).T
+    if not np.array_equal(G, want.astype(G.dtype)):
+        t.fail({"relation": "patch_extraction_is_indexing", **cls}, case, f"{where}: ObjectPixelated.forward on the delta basis differs from plain indexing in {int((G != want).sum())} entries")
+    rng = np.random.default_rng([seed, 16, 9, H, W, P, idx.ndim])
+    x = rng.normal(size=N) + 1j * rng.normal(size=N)
+    y = rng.normal(size=idx.shape) + 1j * rng.normal(size=idx.shape)
+    for ename in CORNER_ENTRIES[:2]:
+        fn = getattr(pu, ename, None)
+        if fn is None:
+            t.extra["seam_missing_" + ename] += 1
+            continue
+        ecls = dict(cls, entry=ename)
+        for dtype, coef in (("float64", 1.0), ("complex128", 1.0 + 2.0j)):
+            S = np.zeros((N, P), dtype=np.complex128)
+            for p in range(P):
+                d = torch.zeros(P, dtype=getattr(torch, dtype))
+                d[p] = coef
+                with library(ename):
+                    S[:, p] = fn(d.reshape(idx.shape), ti, (H, W)).numpy().reshape(N) / coef
+            d = np.abs(S - want.T)
+            if float(d.max()) > 1e-12:
+                k, p = np.unravel_index(int(np.argmax(d)), d.shape)
+                lost = [int(q) for q in np.nonzero(np.abs(S.sum(axis=0) - 1) > 1e-12)[0][:6]]
+                t.fail({"relation": "sum_patches_is_adjoint_of_extraction", **ecls, "dtype": dtype}, case, f"{where} {dtype}: the matrix of {ename} on the delta basis differs from the transpose of the extraction matrix in {int((d > 1e-12).sum())} entries, e.g. object pixel {int(k)} <- patch entry {int(p)}: {S[k, p]:.3g} vs {want[p, k]:.3g}; patch entries whose weight is not conserved: {lost}")
+        # constant patches: exact hit counts and conservation of the total weight, single precision
+        for dtype, coef in (("float32", 1.0), ("complex64", 1.0 - 0.5j)):
+            with library(ename):
+                got = fn(torch.full(idx.shape, coef, dtype=getattr(torch, dtype)), ti, (H, W)).numpy()
+            if got.shape != (H, W) or not np.array_equal(got.reshape(-1), (coef * hist).astype(got.dtype)):
+                t.fail({"relation": "sum_patches_hit_count", **ecls, "dtype": dtype}, case, f"{where} {dtype}: {ename}(const) differs from the histogram of the indices; total weight {abs(complex(got.sum()) / coef):.6g} of {P} patch pixels scattered")
+        # seeded complex128 data: independent np.add.at reference and the inner-product identity
+        ref = np.zeros(N, dtype=np.complex128)
+        np.add.at(ref, flat, y.reshape(-1))
+        with library(ename):
+            got = fn(torch.tensor(y), ti, (H, W)).numpy().reshape(-1)
+        e = float(np.abs(got - ref).max()) / float(np.abs(y).max())
+        t.stat("corner_scatter_vs_numpy_add_at_dev", e)
+        lhs, rhs = complex(np.vdot(x[flat], y.reshape(-1))), complex(np.vdot(x, got))
+        e2 = abs(lhs - rhs) / max(abs(lhs), 1e-30)
+        if e > 1e-12 or e2 > 1e-10:  # worst observed on the unchanged tree 0 / 4e-16; a lost contribution is O(1)
+            t.fail({"relation": "adjoint_inner_product", **ecls}, case, f"{where}: {ename} differs from np.add.at by {e:.3g} of the largest patch value; <gather(x), y> = {lhs:.8g} but <x, {ename}(y)> = {rhs:.8g}; total weight {complex(got.sum()):.8g} vs {complex(y.sum()):.8g}")
+    # the analytic object gradient scatters conj(probe) * gradient back into the object grid and divides by ONE number (the largest probe
+    # weight per object pixel): with a unit probe the map gradient -> -obj.grad must be a multiple of the adjoint of extraction.
+    # Only that proportionality is demanded (the normalisation is C07's subject, here it is counted).
+    bw = getattr(ObjectPixelated, "backward", None)
+    if bw is None:
+        t.extra["seam_missing_ObjectPixelated.backward"] += 1
+        return
+    g = y.astype(np.complex64)
+    ref = np.zeros(N, dtype=np.complex128)
+    np.add.at(ref, flat, g.astype(np.complex128).reshape(-1))
+    with library("ObjectPixelated.backward"):
+        om1 = ObjectPixelated.from_array(np.ones((1, H, W), dtype=np.complex64), obj_type="complex", rng=int(seed) + 8)
+        om1.reset()
+        ones = torch.ones((1, *idx.shape), dtype=torch.complex64)
+        om1.backward(torch.tensor(g)[None].clone(), ones, ones[None], None, ti)
+        got = -om1._obj.grad.detach().numpy().astype(np.complex128).reshape(-1)
+    c = complex(np.vdot(ref, got) / max(float(np.vdot(ref, ref).real), 1e-30))
+    e = float(np.abs(got - c * ref).max()) / max(float(np.abs(got).max()), 1e-30)
+    t.stat("corner_backward_proportionality_dev", e)
+    if abs(c * hist.max() - 1) > 1e-4:
+        t.extra["observed_backward_normalisation_is_not_the_largest_hit_count"] += 1
+    if not np.isfinite(got).all() or abs(c) < 1e-6 or e > TOL:  # complex64: worst observed 2.5e-7 over seeds {0,1,2,7}, all four ROIs; a lost contribution is >= 0.05
+        t.fail({"relation": "object_gradient_is_adjoint_of_extraction", **cls, "entry": "ObjectPixelated.backward"}, case, f"{where}: -obj.grad of ObjectPixelated.backward (unit probe) is not a multiple of the scatter-add of the gradient patches: best multiple {c:.5g}, residual {e:.3g} of the largest entry")
+
+
+@guarded
+def w_adjoint_corner(item, seed=0):
+    torch = _torch()
+    from quantem.diffractive_imaging.object_models import ObjectPixelated
+
+    roi, objshape = tuple(item[0]), tuple(item[1])
+    H, W = objshape
+    N = H * W
+    t = Tally()
+    with library("ObjectPixelated.forward"), torch.no_grad():
+        om = ObjectPixelated.from_array(np.eye(N, dtype=np.complex64).reshape(N, H, W), slice_thicknesses=1.0, obj_type="complex", rng=int(seed) + 5)
+        om.reset()
+    for kind, origins in corner_index_sets(objshape):
+        judge_adjoint_corner(t, roi, objshape, kind, origins, seed, om)
+    t.sample({"kind": "adjoint_corner", "roi": list(roi), "objshape": list(objshape), "index_sets": len(corner_index_sets(objshape))}, cap=2)
     return t
 
 
@@ -1636,6 +1791,9 @@ def run(ctx):
         "a size threshold inside an operator is only visible if the size alphabet straddles it: the scatter/gather pair is additionally run on index sets whose total patch-pixel count sits just below, at and just "
         "above 2^12, 2^14, 2^16 and 2^17 (flat index vectors 2^k-1, 2^k, 2^k+1 and raster sets of large patches with wrap-around and repeats), judged by exact hit counts and the inner-product identity, not by a delta basis; "
         "thresholds elsewhere (above 2^17 + 2^14 patch pixels, or in other operators) are not explored",
+        "size corners of the index set: 1 patch (as a 2-D index array and as a 3-D array with a leading 1, which is what a batch or remainder batch of one hands over), 2 and 3 patches, on objects whose axes are shorter than, "
+        "equal to and longer than the ROI independently per axis (ROI 4x4 and 3x5; thorough also 5x4 and 2x7); on a shorter axis one patch wraps onto itself and has repeated indices, which the property's quantifier includes "
+        "(index sets with repeats and wrap-around). The analytic object gradient (ObjectPixelated.backward, unit probe, one slice) is only required to be a MULTIPLE of the scatter-add of the gradient patches; its normalisation is counted, not judged",
         "the measured amplitudes are detector-centred; the amplitude of the projected wave is read with the library's own DetectorPixelated.forward",
         "overlap arrays whose Fourier transform vanishes somewhere (zero, constant, hard-aperture waves) ARE in the single-mode projection alphabet: there the library keeps angle(0) = 0 (or the round-off phase) and the "
         "result has exactly the measured amplitudes. For two or more modes they stay outside: the direction in mode space that should carry the measured amplitude is undefined where every mode's coefficient "
@@ -1699,6 +1857,21 @@ def run(ctx):
     specs = large_specs()
     ctx.coverage["alphabet"]["adjoint_size_dimension"] = [{"name": sp["name"], "patch_pixels": int(large_indices(sp).size), "objshape": sp["objshape"]} for sp in specs]
     ctx.pmap(w_adjoint_large, specs, chunk=1, label="gather/scatter adjoint (sizes around 2^12..2^17)", seed=ctx.seed)
+    crois = CORNER_ROIS if q else CORNER_ROIS + CORNER_ROIS_EXTRA
+    ctx.coverage["alphabet"]["adjoint_size_corners"] = {
+        "roi": [list(r) for r in crois],
+        "object_axis_lengths_for_roi_length_n": "{1, 2, n-1, n, n+1, 2n+1} on each axis separately",
+        "objects_per_roi": {f"{r[0]}x{r[1]}": [list(o) for o in corner_objects(r)] for r in crois},
+        "patches": CORNER_PATCH_KINDS,
+        "origin_sets": "single patch at (0,0) / (1,2) / (H-1,W-1); two patches at two different origins / the same origin twice; three patches",
+        "patch_dtypes": ["float64", "complex128", "float32", "complex64"],
+        "entry_points": CORNER_ENTRIES,
+    }
+    before = ctx.tally.n
+    ctx.pmap(w_adjoint_corner, [(r, o) for r in crois for o in corner_objects(r)], chunk=2, label="gather/scatter adjoint (size corners: patch count x object smaller/equal/larger than the ROI)", seed=ctx.seed)
+    ctx.coverage["adjoint_size_corner_index_sets"] = ctx.tally.n - before
+    if not ctx.tally.extra.get("corner_sets_single_patch_with_repeated_indices"):
+        raise Broken("no single-patch index set with repeated indices was enumerated: the size-corner alphabet is degenerate")
     ctx.pmap(w_prop, list(itertools.product(rois2, ENERGIES, TILTS)), chunk=1, label="propagation (full basis)", seed=ctx.seed)
     et = list(itertools.product(ENERGIES, TILTS))
     ctx.coverage["alphabet"]["forward_energy_tilt"] = [[e, list(x)] for e, x in et]
@@ -1786,6 +1959,8 @@ def replay(ctx, case):
         t = w_adjoint((case["roi"], case["geometry"]), seed=seed)
     elif k == "adjoint_large":
         judge_adjoint_large(t, case["spec"], seed)
+    elif k == "adjoint_corner":
+        judge_adjoint_corner(t, case["roi"], case["objshape"], case["patches"], case["origins"], seed)
     elif k == "prop":
         t = w_prop((case["roi"], case["energy"], case["tilt"]), seed=seed)
         keep = [f for f in t.fails if f["case"].get("a") == case.get("a") and f["case"].get("b") == case.get("b") and f["case"].get("part") == case.get("part")]
